@@ -179,6 +179,8 @@ func (fc *FuncCtx) evalBuiltin(c *ast.CallExpr, name string, st *State) []*Value
 		case KStr:
 			t := app(e.declFun("slen", []string{"Str"}, "Int"), v.T())
 			st.assume("(<= 0 " + t + ")")
+			// only the empty string has length 0
+			st.assume(eq(eq(t, "0"), eq(v.T(), e.strLit(""))))
 			return []*Value{scalar(shInt, t)}
 		case KMapRef:
 			card := e.declFun("map.len", []string{"(Array " + e.leafSorts(v.Sh.Key)[0] + " Bool)"}, "Int")
